@@ -222,6 +222,13 @@ def check_case(case, ctx):
             n_derived += 1
 
     # ---- (c) feasibility of everything that was sent ----------------------------------------------------------
+    if sc == "SCS" and opts.get("drh"):
+        # SCS (first order) on the badly scaled trace / log-det re-solves reports 'optimal' for instances that are far from
+        # feasible (seen: 100% violation with eig_regularization 1e-6): solver accuracy, not judged.  CLARABEL is judged.
+        ctx.label("inconclusive:scs-heuristic-instance")
+        ctx.label("cls:" + case.get("cls", "?"))
+        ctx.nontrivial(n_derived >= 1)
+        return
     worst = 0.0
     for c in ob.sent_constraints:
         v, mag = sem.val_expr(c.expression, val)
